@@ -204,7 +204,7 @@ Export(res, inst, mu) ==
                                       THEN <<[dev |-> "Dev_ValidationCapTruncatesLastField", only |-> "any", exp |-> Obs(scn, inst, mu)]>>
                                       ELSE <<>>)
                                      \o (IF DevGuard_MsgPackStreamParentKeyView(scn)
-                                         THEN <<[dev |-> "Dev_MsgPackStreamParentKeyView", only |-> "msgpack-stream",
+                                         THEN <<[dev |-> "Dev_MsgPackStreamParentKeyView", only |-> "msgpack-stream", undef |-> DevUndefined_MsgPackStreamParentKeyView(scn),
                                                  exp |-> ObsGarbled(scn, inst, MGarbled(scn, inst))]>>
                                          ELSE <<>>)])>>)
 
